@@ -13,11 +13,11 @@ props = {
  "C05": ("Cancellation proved with a monotone ghost boolean that may flip inside every callback and during a blocking select: pre-cancelled => no callback and Is(err, ctx.Err()); !cancelled at every Exec site and every child Run site; any observed cancellation => non-nil error matching ctx.Err().",
          "A3 (cancellation is observed only through ctx.Err()/Done()), T5, T8.", "6/C05"),
  "C06": ("Positional batch results: normalisation of the prep value, one runExecWithRetries call per index with items[i], slot i == slotOf(outcome i) as quantified loop invariants (sequential); for the pooled path each task is proved to write only its own slot with its own item's outcome, and submission is proved to bind task i to (i, items[i]) once, Wait before return. Post exactly once with items and results.",
-         "Sequential path: proved. Concurrent path: function-local contracts proved; 'for every schedule' rests on lemma L3 (disjoint write frames + T2 happens-before at Wait) which is argued, not machine-checked. T2, T3, T4.", "6/C06, 4/L3"),
+         "Sequential path: proved. Concurrent path: function-local contracts proved; 'for every schedule' rests on lemma L3 (L3step/L3final are SMT-checked implications over the task's frame and postcondition clauses) and on L2barrier + T2; that the lemma hypotheses faithfully abstract the clauses they cite, and the axioms T2-T4, are argued.", "6/C06, 4/L3"),
  "C07": ("Every item exactly once: ghost per-index call counters; continue mode without cancellation => every counter is 1 at Post (sequential: loop invariant; pooled: one Submit per index and the task calls runExecWithRetries exactly once unless stopped/cancelled); runExecWithRetries has no state besides locals; slot error is the last attempt's error or the fallback's outcome (identity, not merely Is).",
          "As C06 for the pooled path (L3).", "6/C07"),
  "C08": ("Concurrency bound: NewWorkerPool spawns exactly max(workers,1) goroutines of worker(p) (loop invariant spawned == k), queue capacity 2*workers; worker runs received tasks synchronously, one at a time, never spawns; Submit never runs a task; runBatch takes the pooled path iff concurrency > 0 and passes exactly that number; sequential path runs items in index order.",
-         "Safety half proved function-locally; lifted to 'never more than c in flight on every schedule' by lemma L2 (argued). The liveness half (c blocking executions do run simultaneously, no deadlock) is NOT decided by this technique: it follows from spawned == c plus runtime fairness, stated as an argument.", "6/C08, 8"),
+         "Safety half proved function-locally; lifted to 'never more than c in flight on every schedule' by lemma L2 (counter system with SMT-checked steps L2submit/L2take/L2finish/L2bound; the correspondence of the steps to the cited clauses and T3-T5 are argued). The liveness half (c blocking executions do run simultaneously, no deadlock) is NOT decided by this technique: it follows from spawned == c plus runtime fairness, stated as an argument.", "6/C08, 8"),
  "C09": ("Stop-on-error: sequential: no runExecWithRetries call after a failing one (monitor guard !stopped), every skipped slot is an error result (this clause found defect D3, now fixed); pooled task: reads the stop flag under the mutex before executing, sets it under the mutex after a failure in stop mode, marks itself with an error when stopped.",
          "Pooled 'only already picked-up items still run' needs T1 ordering + L3 (argued).", "6/C09, 7/D3"),
  "C10": ("Flow as a node: Flow.Prep returns the very store and invokes nothing; Flow.Exec runs every child with that store and returns the last child's action boxed; Flow.Post unboxes it; errors pass unchanged.",
@@ -25,7 +25,7 @@ props = {
  "C11": ("Batch cancellation: no runExecWithRetries call while cancelled (sequential monitor guard, pooled task checks ctx first), no Exec attempt while cancelled, cancelled wait returns Is(err, ctx.Err()), every unexecuted slot carries an error (found D3), post called exactly once unless prep/post fails. Retry and index loops have decreases clauses.",
          "Termination of pool.Wait() needs T2 and that every task terminates (callbacks terminate): argued. A3.", "6/C11"),
  "C12": ("Worker pool facts proved per function: Submit does exactly one wg.Add(1) before exactly one blocking send of a wrapper bound to (pool, task); the wrapper calls the task exactly once and wg.Done exactly once, deferred; worker calls each received task exactly once before the next receive and returns only on closed queue or done; Wait calls wg.Wait once; Close closes both channels once.",
-         "Exactly-once, barrier and visibility for every schedule follow by lemma L2 from these facts and T2-T5 (argued). 'All goroutines terminate after Wait+Close' is liveness under fairness: not decided.", "6/C12, 8"),
+         "Exactly-once, barrier and visibility for every schedule follow by lemma L2 (SMT-checked counter steps, L2barrier) from these facts and T2-T5 (correspondence argued). 'All goroutines terminate after Wait+Close' is liveness under fairness: not decided.", "6/C12, 8"),
  "C13": ("Lock discipline proved for every store method: each read of the data field and of the map happens with the RWMutex held (R or W), each map write / field write with the exclusive lock, the lock is released at every return, exactly one critical section per operation (Merge/Clear/GetAll/Keys do their whole work in it).",
          "Linearizability and race freedom follow from this discipline by the standard two-phase-locking argument (lemma L1) and T1: that step is an assumption, not machine-checked. Typed getters reach the store only through one Get.", "6/C13, 4/L1"),
  "C14": ("Store = map: whole-view postconditions for Get/Set/Has/Delete/Len/Clear/Merge/GetAll/Keys over the abstract (dom, val) view of the map object, with frames; GetAll returns a fresh map equal to the view; Keys returns a fresh backing array that is a bijection onto the key set (length == card, all elements keys, pairwise distinct). Range loops use T6 with a ghost visited set.",
